@@ -366,9 +366,13 @@ def units_for(prop):
     """Units whose templates carry at least one clause tagged with prop (or overflow obligations for C16/C17)."""
     out = []
     for fn in sorted(os.listdir(CONTRACTS)):
-        if not fn.endswith(".vrs") or fn == "common.vrs":
+        if not fn.endswith(".vrs"):
             continue
         txt = open(os.path.join(CONTRACTS, fn)).read()
+        if "verus! {" not in txt:
+            continue   # include files (common*.vrs) are not units
+        if "//@include common_p.vrs" in txt:
+            txt += open(os.path.join(CONTRACTS, "common_p.vrs")).read()
         if "//@include common.vrs" in txt:
             txt += open(os.path.join(CONTRACTS, "common.vrs")).read()
         tagged = any(prop in (m.group(2).split()) for m in (TAG_RE.search(l) for l in txt.split("\n")) if m)
